@@ -68,13 +68,14 @@ type childSpec struct {
 }
 
 type childOutcome struct {
-	spec     childSpec
-	res      *Result
-	exitCode int
-	timedOut bool
-	stderr   string
-	journal  string
-	lastIn   string
+	spec      childSpec
+	res       *Result
+	exitCode  int
+	timedOut  bool
+	stderr    string
+	journal   string
+	lastIn    string
+	hungTwice bool
 }
 
 func runChild(p *Prop, tier string, seed int64, dir string, sp childSpec, timeout time.Duration) childOutcome {
@@ -245,9 +246,9 @@ func Orchestrate(propID, tier string, seed int64, replay string) int {
 	// children
 	agg := &Agg{Shapes: map[string]struct{}{}, Counters: map[string]int64{}, Tier: tier}
 	sem := make(chan struct{}, runtime.NumCPU())
-	timeout := 20 * time.Minute
+	timeout := 6 * time.Minute
 	if tier == "thorough" {
-		timeout = 90 * time.Minute
+		timeout = 60 * time.Minute
 	}
 	var outcomes []childOutcome
 	var omu sync.Mutex
@@ -267,6 +268,9 @@ func Orchestrate(propID, tier string, seed int64, replay string) int {
 					oc2 := runChild(p, tier, seed, dir, sp, timeout)
 					if !(oc2.timedOut && (oc2.res == nil || !oc2.res.Done)) {
 						oc = oc2
+					} else if oc2.journal == oc.journal && oc2.lastIn == oc.lastIn {
+						// the same case did not terminate twice under a generous watchdog: not load
+						oc.hungTwice = true
 					}
 				}
 				<-sem
@@ -310,6 +314,13 @@ func Orchestrate(propID, tier string, seed int64, replay string) int {
 			agg.Inconclusive = append(agg.Inconclusive, oc.res.Inconclusive...)
 		}
 		if oc.res == nil || !oc.res.Done {
+			if oc.timedOut && oc.hungTwice {
+				agg.Violations = append(agg.Violations, Violation{Prop: p.ID, Clause: "no-termination", Case: firstField(oc.journal), Mode: oc.spec.mode.Name,
+					Seed: seed, Tier: tier, Detail: fmt.Sprintf("worker did not terminate within %v, twice, at the same journalled case %q\n%s", timeout, oc.journal, oc.stderr),
+					Replay: map[string]any{"last_input": oc.lastIn}})
+				agg.Counters["violations.no-termination"]++
+				continue
+			}
 			if oc.timedOut {
 				agg.Inconclusive = append(agg.Inconclusive, fmt.Sprintf("watchdog: mode %s shard %d at case %q", oc.spec.mode.Name, oc.spec.shard, oc.journal))
 				continue
